@@ -203,11 +203,33 @@ def pat_range(spec, pid):
 # rendering
 # ------------------------------------------------------------------------------------------------
 
-def _dirnode(spec, pid, name=None) -> str:
+def task_mod(spec, t) -> int:
+    """module of a task: 0 = task_m0.py in the project root, 1 = sub/task_m1.py; a defined task lives in its generator's module"""
+    byid = {u["id"]: u for u in spec["tasks"]}
+    while t.get("parent") is not None:
+        t = byid[t["parent"]]
+    return int(t.get("mod") or 0)
+
+
+def root_dir_expr(spec, d, style, mod) -> str:
+    """spelling of the `root_dir` of a DirectoryNode for directory d: absolute, or relative to the directory of the task's
+    OWN module (plain, with `./`, with `..` components) — all denote the same directory (collect.py joins and normalises)"""
+    dn, dd = data_name(spec), dir_name(spec, d)
+    up = "" if mod == 0 else "../"
+    if style == "rel":
+        return f"Path({up + dn + '/' + dd!r})"
+    if style == "dot":
+        return f"Path({'./' + up + dn + '/' + dd!r})"
+    if style == "dotdot":
+        return f"Path({(up + dn + '/../' + dn + '/' + dd) if mod == 0 else ('../sub/../' + dn + '/' + dd)!r})"
+    return f"D / {dd!r}"
+
+
+def _dirnode(spec, pid, name=None, style=None, mod=0) -> str:
     """`name` = a custom `name=` of the DirectoryNode (a label: the node's identity is (root_dir, pattern) only)."""
     p = pat_of(spec, pid)
     nm = f"name={name!r}, " if name else ""
-    return f"DirectoryNode({nm}root_dir=D / {dir_name(spec, p['dir'])!r}, pattern={geom(p)[0]!r})"
+    return f"DirectoryNode({nm}root_dir={root_dir_expr(spec, p['dir'], style, mod)}, pattern={geom(p)[0]!r})"
 
 
 def after_idents(t):
@@ -241,21 +263,22 @@ def _render_task(spec, t, ind: str, kid: bool) -> list[str]:
 
     def dn(j, kind):
         return f"dir_{kind}{j}_of_t{t['id']}" if t.get("dname") else None
+    rs, md = t.get("rstyle"), task_mod(spec, t)
     for j, pid in enumerate(t["pprods"]):
         p = pat_of(spec, pid)
         _, lo, ln = geom(p)
         if ret_style:
-            ret_ann = f"Annotated[None, {_dirnode(spec, pid, dn(j, 'p'))}]"
+            ret_ann = f"Annotated[None, {_dirnode(spec, pid, dn(j, 'p'), rs, md)}]"
             pp_args.append(f"(D / {dir_name(spec, p['dir'])!r}, {lo}, {ln})")
         else:
-            nodef.append(f"pp{j}: Annotated[Path, {_dirnode(spec, pid, dn(j, 'p'))}, Product]")
+            nodef.append(f"pp{j}: Annotated[Path, {_dirnode(spec, pid, dn(j, 'p'), rs, md)}, Product]")
             pp_args.append(f"(pp{j}, {lo}, {ln})")
     for j, pid in enumerate(t["pdeps"]):
         p = pat_of(spec, pid)
         if t.get("dstyle") == "annotated":
-            nodef.append(f"q{j}: Annotated[list, {_dirnode(spec, pid, dn(j, 'q'))}]")
+            nodef.append(f"q{j}: Annotated[list, {_dirnode(spec, pid, dn(j, 'q'), rs, md)}]")
         else:
-            params.append(f"q{j}={_dirnode(spec, pid, dn(j, 'q'))}")
+            params.append(f"q{j}={_dirnode(spec, pid, dn(j, 'q'), rs, md)}")
         pd_args.append(f"(q{j}, D / {dir_name(spec, p['dir'])!r}, {geom(p)[0]!r})")
     cnt = "None"
     if t.get("cnt") is not None:
@@ -288,6 +311,10 @@ def _render_task(spec, t, ind: str, kid: bool) -> list[str]:
         deco.append("after=" + (tname(at[0]) if len(at) == 1 and t.get("after_style") != "list" else "[" + ", ".join(tname(a) for a in at) + "]"))
     if t.get("try_first"):
         L.append(f"{ind}@pytask.mark.try_first")
+    for mk in {"pos": ["skipif(False, reason='never')"], "kw": ["skipif(condition=False, reason='never')"],
+               "zero": ["skipif(0, reason='never')"], "multi": ["skipif(False, reason='no')", "skipif(condition=0, reason='never')"]
+               }.get(t.get("skipif_false"), []):
+        L.append(f"{ind}@pytask.mark.{mk}")       # a skipif mark whose condition is false: the task is NOT skipped
     if t.get("uncollectable"):
         # both priority marks: pytask_collect_task_protocol reports FAIL for this task (it cannot be collected)
         L.append(f"{ind}@pytask.mark.try_first")
@@ -318,29 +345,41 @@ def _render_task(spec, t, ind: str, kid: bool) -> list[str]:
     return L
 
 
-def render_module(spec, src_value=None) -> str:
+def modules(spec):
+    return sorted({task_mod(spec, t) for t in spec["tasks"]})
+
+
+def module_file(root: Path, mod: int) -> Path:
+    return root / "task_m0.py" if mod == 0 else root / "sub" / "task_m1.py"
+
+
+def src_node(mod: int) -> int:
+    return SRC_NODE + mod
+
+
+def render_module(spec, src_value=None, mod=0) -> str:
     L = [
-        f"# C18 module version {spec.get('version', 0)}",
+        f"# C18 module {mod} version {spec.get('version', 0)}",
         "from __future__ import annotations",
         "from pathlib import Path",
         "from typing import Annotated",
         "import pytask",
         "from pytask import DirectoryNode, Product, task",
         "import _verif_prt as rt",
-        f"D = Path(__file__).resolve().parent / {data_name(spec)!r}",
-        f"SRC = {module_content(spec) if src_value is None else src_value}",
+        f"D = Path(__file__).resolve().parent{'.parent' if mod else ''} / {data_name(spec)!r}",
+        f"SRC = {module_content(spec, mod) if src_value is None else src_value}",
         "def rt_tname(t):",
         "    return 'task_t%02dx' % t",
         "",
     ]
     for t in spec["tasks"]:
-        if t.get("parent") is None:
+        if t.get("parent") is None and task_mod(spec, t) == mod:
             L.extend(_render_task(spec, t, "", kid=False))
     return "\n".join(L) + "\n"
 
 
-def module_content(spec) -> int:
-    txt = render_module(spec, src_value="@@")
+def module_content(spec, mod=0) -> int:
+    txt = render_module(spec, src_value="@@", mod=mod)
     return int(hashlib.sha1(txt.encode()).hexdigest()[:12], 16) + 1
 
 
@@ -349,7 +388,8 @@ def materialise(root: Path, spec, clock):
     (root / "pyproject.toml").write_text("[tool.pytask.ini_options]\n")
     (root / "_verif_prt.py").write_text(runtime_text(spec))
     (root / data_name(spec)).mkdir(exist_ok=True)
-    project.write_file(root / "task_m0.py", render_module(spec), clock)
+    for mod in modules(spec):
+        project.write_file(module_file(root, mod), render_module(spec, mod=mod), clock)
     for n, c in spec.get("inputs", {}).items():
         project.write_file(npath(root, int(n), spec), str(c), clock)
 
@@ -417,7 +457,7 @@ def model_lines(spec):
     lines = ["prov.reset"]
     for t in spec["tasks"]:
         lines.append(
-            f"prov.task id={t['alias'] if t.get('alias') is not None else t['id']} src={SRC_NODE} cnt={'none' if t.get('cnt') is None else t['cnt']} "
+            f"prov.task id={t['alias'] if t.get('alias') is not None else t['id']} src={src_node(task_mod(spec, t))} cnt={'none' if t.get('cnt') is None else t['cnt']} "
             f"deps={','.join(map(str, t['deps']))} pdeps={_slots(spec, t['pdeps'])} prods={','.join(map(str, t['prods']))} "
             f"pprods={_slots(spec, t['pprods'])} after={','.join(map(str, after_ids(spec, t)))} gen={1 if t.get('gen') else 0} fails={1 if t.get('fails') and t.get('fails') != 'late' else 0} late={1 if t.get('fails') == 'late' and not t.get('gen') else 0} "
             f"parent={'none' if t.get('parent') is None else t['parent']} unc={1 if t.get('uncollectable') else 0}")
@@ -465,7 +505,7 @@ def replay_in_model(drv, hist, records):
             return [(0, "model rejects the project description", ln, "bad-op")]
     drv.ask("prov.clearfs")
     drv.ask("prov.cleardb")
-    sets = [f"{n}:{c}" for n, c in spec["inputs"].items()] + [f"{SRC_NODE}:{module_content(spec)}"]
+    sets = [f"{n}:{c}" for n, c in spec["inputs"].items()] + [f"{src_node(m)}:{module_content(spec, m)}" for m in modules(spec)]
     drv.ask(f"prov.fs set={','.join(sets)} del=")
     for i, rec in enumerate(records):
         step = rec["step"]
@@ -497,7 +537,8 @@ def replay_in_model(drv, hist, records):
             if kv["complete"] != "1":
                 out.append((i, "model expects more picks (build loop ended early in the implementation)", impl_reports, ans))
             mfs = dict(e.split(":") for e in kv["fs"].split(",") if e)
-            mfs.pop(str(SRC_NODE), None)
+            for m in (0, 1):
+                mfs.pop(str(src_node(m)), None)
             ifs = {str(n): str(c) for n, c in rec["post"].items()}
             if mfs != ifs:
                 diff = sorted(set(mfs.items()) ^ set(ifs.items()))[:4]
@@ -765,6 +806,22 @@ def gen_spec(rng, *, overlap_p=0.08, fail_p=0.06):
             else:
                 x["after_tasks"], x["after_style"] = targets, style
             tasks.append(x)
+    # a skipif mark whose condition is FALSE (positional, keyword, 0, several marks) on producers / upstream tasks: they are not
+    # skipped, and neither are their descendants
+    for t in tasks:
+        if t.get("parent") is None and not t.get("after_tasks") and rng.random() < (0.3 if t["pprods"] or t["prods"] else 0.1):
+            t["skipif_false"] = rng.choice(["pos", "kw", "zero", "multi"])
+    # task modules in two directories (project root and sub/) and different spellings of one root_dir: absolute, relative to the
+    # task's own module (plain, `./`, with `..`) — producer and consumer of a directory share ONE node however it is spelled
+    if rng.random() < 0.6:
+        pinned = {i for t in tasks for i in ([t["id"]] + list(t.get("after_tasks") or [])) if t.get("after_tasks")}
+        pinned |= {i for t in tasks if t.get("alias") is not None for i in (t["alias"], t["parent"])}
+        for t in tasks:
+            if t.get("parent") is None and t["id"] not in pinned and rng.random() < 0.5:
+                t["mod"] = 1
+        for t in tasks:
+            if (t["pdeps"] or t["pprods"]) and rng.random() < 0.75:
+                t["rstyle"] = rng.choice(["rel", "dot", "dotdot", "abs"])
     spec = {"pats": pats, "tasks": tasks, "perfile": perfile, "inputs": inputs, "version": 0}
     # directory names with glob metacharacters (literal names: DirectoryNode globs the pattern below root_dir only)
     names = {str(d): f"d{d}" + rng.choice(["[x]", "[ab]", " q?", "*", "[!a]b"]) for d in range(ndirs) if rng.random() < 0.3}
